@@ -55,8 +55,18 @@
 (* delivering the same documents that the tool offers end in the same      *)
 (* state up to `sin` (Core; checked in MC_YCli for all three deliveries).  *)
 (*                                                                         *)
+(* The merge / comparison POLICY of a run (yaml-merge: hashes, arrays, aoh, *)
+(* sets, anchors; yaml-diff: arrays, aoh) is settled while the arguments   *)
+(* are read: per option the value given on the command line, else the      *)
+(* value of the --config file's [defaults] section, else the built-in      *)
+(* default (mergerconfig.py:57-201, differconfig.py:37-85; [rules] apply   *)
+(* to single nodes and are not modelled).  The args event carries what the *)
+(* user wrote (cli, cfg: option -> value or ""); the state keeps the       *)
+(* EFFECTIVE policy and the Work step accepts only a library call made     *)
+(* under exactly that policy.                                              *)
+(*                                                                         *)
 (* State  s = [tool, o, pc, argsok, valid, nload, badat, stage, lib,       *)
-(*             badexpr, lines, doc, code, sin, crash]                      *)
+(*             badexpr, lines, doc, code, sin, crash, policy]              *)
 (*   o       the options the tables read:                                  *)
 (*             must   set: --mustexist | --delete | --saveto               *)
 (*             mode   merge: condense_all | merge_across | matrix_merge    *)
@@ -70,9 +80,10 @@
 (*   crash   the run died of an uncaught exception (deviating designs)     *)
 (*   doc     "none" | "written": a result document was delivered (target   *)
 (*           file rewritten, --output file created, or printed)            *)
-(* Events e = [ph |-> "args" | "validate", ok]                             *)
+(*   policy  option -> effective value (a function; <<>> where none)       *)
+(* Events e = [ph |-> "args", ok, cli, cfg]   [ph |-> "validate", ok]      *)
 (*            [ph |-> "load", via |-> "file" | "dash" | "implicit", ok]    *)
-(*            [ph |-> "work", k, res, n]                                   *)
+(*            [ph |-> "work", k, res, n, policy]                           *)
 (*            [ph |-> "output", lines, doc]     [ph |-> "exit", code]      *)
 (***************************************************************************)
 EXTENDS Integers, Sequences, FiniteSets
@@ -80,6 +91,10 @@ EXTENDS Integers, Sequences, FiniteSets
 CONSTANT StdinOnlyMerge   \* TRUE: yaml-merge without a YAML_FILE takes the waiting STDIN document as its left-hand
                           \* document (yaml_merge.py:544-549).  FALSE names the design before that repair: the document
                           \* was merged into an empty list and the run died (IndexError) - MC_YCli must refute it.
+CONSTANT ConfigDefaultsHonoured   \* TRUE: an option that is absent from the command line leaves the [defaults] of the
+                                  \* --config file in force.  FALSE names the design in which the argument parser gives
+                                  \* the option a default of its own, so that it always counts as given and the file is
+                                  \* ignored - MC_YCli must refute it.
 CONSTANT Sticky     \* TRUE: the design of the code - a source that failed keeps the run failed (yaml_validate.py:148-151,
                     \* yaml_paths.py:927-930).  FALSE names the deviating design "the status of the last source wins",
                     \* which MC_YCli must refute.
@@ -94,7 +109,18 @@ Lib(k, n) == [k |-> k, n |-> n]
 Init0(tool, o) ==
   [tool |-> tool, o |-> o, pc |-> "Args", argsok |-> TRUE, valid |-> TRUE, nload |-> 0, badat |-> 0,
    stage |-> 0, lib |-> Lib("", 0), badexpr |-> FALSE, lines |-> 0, doc |-> "none", code |-> 0 - 1,
-   sin |-> "free", crash |-> FALSE]
+   sin |-> "free", crash |-> FALSE, policy |-> <<>>]
+
+(* ---------------------------------------------------------------- policy *)
+Builtin(tool, k) ==
+  IF tool = "merge" THEN (CASE k = "hashes" -> "deep" [] k = "arrays" -> "all" [] k = "aoh" -> "all"
+                            [] k = "sets" -> "unique" [] k = "anchors" -> "stop" [] OTHER -> "builtin")
+  ELSE IF tool = "diff" THEN (IF k \in {"arrays", "aoh"} THEN "position" ELSE "builtin")
+  ELSE "builtin"
+\* command line > [defaults] of the configuration file > built-in default
+Effective(tool, k, cli, cfg) ==
+  IF cli # "" THEN cli ELSE IF cfg # "" /\ ConfigDefaultsHonoured THEN cfg ELSE Builtin(tool, k)
+PolicyOf(tool, cli, cfg) == [k \in DOMAIN cli |-> Effective(tool, k, cli[k], cfg[k])]
 
 Reject(s) == [s EXCEPT !.pc = "REJECT"]
 ToOutput(s) == [s EXCEPT !.pc = "Output"]
@@ -151,12 +177,21 @@ WorkStep(s, e) ==
         ELSE Reject(s))
      ELSE Reject(s))
   ELSE IF s.tool = "merge" THEN
-    (IF s.pc # "Work" \/ e.k # "merge" THEN Reject(s)
-     ELSE IF e.res = "ok" THEN [s EXCEPT !.pc = "Load", !.lib = Lib("merged", s.lib.n + 1)]
-     ELSE IF e.res \in {"mergeerr", "yperr"} THEN ToOutput([s EXCEPT !.lib = Lib(e.res, s.lib.n)])
+    \* one merge per (left-hand document, right-hand document) of the input just read: the first where the input was
+    \* loaded (pc Work), further ones for multi-document streams.  A merge that fails keeps the run failed: merge_across
+    \* stops there; condense_all and matrix_merge go on with the remaining documents (yaml_merge.py:385-470), and the
+    \* status of the LAST failure is the exit status - a later success never clears it (Sticky).
+    (IF e.k # "merge" \/ e.policy # s.policy \/ e.res \notin {"ok", "mergeerr", "yperr"} THEN Reject(s)     \* merged under the effective policy
+     ELSE IF s.pc = "Work" \/ (s.pc = "Load" /\ s.nload >= 2 /\ s.lib.k = "merged") THEN
+       (IF e.res = "ok" THEN [s EXCEPT !.pc = "Load", !.lib = Lib("merged", s.lib.n + 1)]
+        ELSE ToOutput([s EXCEPT !.lib = Lib(e.res, s.lib.n)]))
+     ELSE IF s.pc = "Output" /\ s.argsok /\ s.valid /\ s.badat = 0 /\ ~s.crash /\ s.lib.k \in {"mergeerr", "yperr"} /\ s.o.mode # "merge_across" THEN
+       (IF e.res = "ok" THEN (IF Sticky THEN s ELSE [s EXCEPT !.pc = "Load", !.lib = Lib("merged", s.lib.n + 1)])
+        ELSE [s EXCEPT !.lib = Lib(e.res, s.lib.n)])
      ELSE Reject(s))
   ELSE IF s.tool = "diff" THEN
     (IF s.pc # "Work" \/ e.k \notin {"same", "differs", "needindex"} \/ (e.k = "differs" /\ e.n < 0) THEN Reject(s)
+     ELSE IF e.k # "needindex" /\ e.policy # s.policy THEN Reject(s)               \* compared under the effective policy
      ELSE ToOutput([s EXCEPT !.lib = Lib(e.k, IF e.k = "needindex" THEN 0 ELSE e.n)]))
   ELSE IF s.tool = "paths" THEN                      \* one search per loaded document and expression
     (IF s.pc # "Load" THEN Reject(s)
@@ -218,7 +253,8 @@ CanOutput(s) ==
 Step(s, e) ==
   IF e.ph = "args" THEN
     (IF s.pc # "Args" THEN Reject(s)
-     ELSE IF e.ok THEN [s EXCEPT !.pc = "Validate"] ELSE ToOutput([s EXCEPT !.argsok = FALSE]))
+     ELSE IF e.ok THEN [s EXCEPT !.pc = "Validate", !.policy = PolicyOf(s.tool, e.cli, e.cfg)]
+     ELSE ToOutput([s EXCEPT !.argsok = FALSE]))
   ELSE IF e.ph = "validate" THEN
     (IF s.pc # "Validate" THEN Reject(s)
      ELSE IF e.ok THEN [s EXCEPT !.pc = "Load"] ELSE ToOutput([s EXCEPT !.valid = FALSE]))
